@@ -1,4 +1,5 @@
 import ReplicatProofs.Lemmas.RepoCrashPlans
+import ReplicatProofs.Lemmas.SnapshotPlan
 import ReplicatProofs.Lemmas.LocalUpload
 /-!
 # C03 — interrupted commands leave a consistent, usable repository   (PARTIAL: see the end of this comment)
@@ -154,6 +155,13 @@ theorem destructive_plan_runs_command (enc : Bool) (s : Store) (u : User) (sids 
     cases cleanPlan enc u s with
     | error e => rfl
     | ok ns => simp only [flatten_cons, flatten_nil, append_nil, applyMuts_dels]
+
+/-- the plan of `snapshot` IS the command as well: running the chunk stage and then the snapshot stage is `snapshot`
+(so every theorem above about prefixes of the plan is a theorem about interrupted executions of the modelled command) -/
+theorem snapshot_plan_runs_command (enc : Bool) (s : Store) (u : User) (stream : List Content) (files : List FileRec) (ts sid : Nat) :
+    applyMuts s (planOf enc s (.snapshot u stream files ts sid)).flatten = step enc s (.snapshot u stream files ts sid) := by
+  simp only [planOf, step]
+  exact snapshotPlan_runs u stream files ts sid s
 
 /-! ## the local backend: upload = mkdir -p; mktemp *.tmp; write…; rename -/
 open Replicat.LocalUpload in
